@@ -116,7 +116,7 @@ struct Target<'a> {
     prefix: Option<&'a str>,
 }
 
-fn check_arm<H: Handle>(cx: &mut Ctx, arm: &str, first: Result<prometheus::Result<H>, String>, second: Result<prometheus::Result<H>, String>, twin: prometheus::Result<H>, target: &Target, other: &Registry, amount: u64) {
+fn check_arm<H: Handle>(cx: &mut Ctx, arm: &str, first: Result<prometheus::Result<H>, String>, second: Result<prometheus::Result<H>, String>, twin: prometheus::Result<H>, target: &Target, other: &Registry, amount: u64) -> bool {
     cx.part.evaluations += 1;
     cx.part.count("macro_invocations", 2);
     let tag = cx.case_tag;
@@ -136,17 +136,17 @@ fn check_arm<H: Handle>(cx: &mut Ctx, arm: &str, first: Result<prometheus::Resul
             if let Ok(Ok(_)) = first {
                 cx.violation("macro-accepts-arguments-the-explicit-constructor-refuses", arm, format!("explicit constructor: {}", e), detail(String::new()));
             }
-            return;
+            return false;
         }
     };
     let h = match first {
         Err(p) => {
             cx.violation("macro-panicked-on-valid-arguments", arm, p, detail(String::new()));
-            return;
+            return false;
         }
         Ok(Err(e)) => {
             cx.violation("macro-refused-admissible-metric", arm, e.to_string(), detail(String::new()));
-            return;
+            return false;
         }
         Ok(Ok(h)) => h,
     };
@@ -159,13 +159,13 @@ fn check_arm<H: Handle>(cx: &mut Ctx, arm: &str, first: Result<prometheus::Resul
             format!("macro: {:?}; explicit: {:?}", dm.iter().map(|d| desc_fields(d)).collect::<Vec<_>>(), dt.iter().map(|d| desc_fields(d)).collect::<Vec<_>>()),
             detail(String::new()),
         );
-        return;
+        return false;
     }
     h.bump(amount);
     twin.bump(amount);
     if bounds_of(&h.collect()) != bounds_of(&twin.collect()) {
         cx.violation("macro-buckets-differ-from-explicit-constructor", arm, format!("macro: {:?}; explicit: {:?}", bounds_of(&h.collect()), bounds_of(&twin.collect())), detail(String::new()));
-        return;
+        return false;
     }
     // registered in the registry named in the call (or the default one), and the handle is the registered metric itself
     let fq = dm[0].fq_name.clone();
@@ -186,12 +186,12 @@ fn check_arm<H: Handle>(cx: &mut Ctx, arm: &str, first: Result<prometheus::Resul
                 format!("after adding {} through the returned handle the targeted registry shows {:?} for {}", amount, got, exposed),
                 detail(String::new()),
             );
-            return;
+            return false;
         }
     }
     if in_other.iter().any(|f| f.name == fq || f.name == exposed) {
         cx.violation("macro-registered-in-the-wrong-registry", arm, format!("{} also appears in the registry that was not named", fq), detail(String::new()));
-        return;
+        return false;
     }
     // a second identical invocation is refused and evaluates to Err
     match second {
@@ -199,9 +199,30 @@ fn check_arm<H: Handle>(cx: &mut Ctx, arm: &str, first: Result<prometheus::Resul
         Ok(Ok(_)) => cx.violation("macro-second-registration-not-refused", arm, format!("registering {} twice succeeded", fq), detail(String::new())),
         Err(p) => cx.violation("macro-panicked-instead-of-err", arm, p, detail(String::new())),
     }
-    // keep the process-global default registry small
-    if target.custom.is_none() {
-        let _ = prometheus::unregister(Box::new(h.clone()));
+    // unregister it again - through the free function or through the registry handle - and report whether
+    // that went through: the caller then invokes the macro a third time, which must succeed again
+    let un = match target.custom {
+        Some(r) => r.unregister(Box::new(h.clone())),
+        None if amount % 2 == 0 => prometheus::unregister(Box::new(h.clone())),
+        None => prometheus::default_registry().unregister(Box::new(h.clone())),
+    };
+    un.is_ok()
+}
+
+/// Third invocation, after the metric of the first one was unregistered: the explicit calls would register
+/// a fresh metric, so the macro must evaluate to Ok again (and the new metric is unregistered for good).
+fn check_again<H: Handle>(cx: &mut Ctx, arm: &str, third: Result<prometheus::Result<H>, String>, target: &Target) {
+    cx.part.count("macro_invocations", 1);
+    cx.part.count("macro_invocations_after_unregistration", 1);
+    match third {
+        Err(p) => cx.violation("macro-panicked-on-valid-arguments", arm, p, jobj! {"arm" => arm, "note" => "third invocation, after the first metric was unregistered"}),
+        Ok(Err(e)) => cx.violation("macro-refused-admissible-metric", arm, format!("after the first metric was unregistered the same invocation evaluates to Err: {}", e), jobj! {"arm" => arm, "note" => "third invocation, after the first metric was unregistered"}),
+        Ok(Ok(h)) => {
+            let _ = match target.custom {
+                Some(r) => r.unregister(Box::new(h.clone())),
+                None => prometheus::unregister(Box::new(h.clone())),
+            };
+        }
     }
 }
 
@@ -323,7 +344,10 @@ pub fn run_case(cx: &mut Ctx) {
         ($arm:expr, $target:expr, $invoke:expr, $twin:expr) => {{
             let first = catch(|| $invoke);
             let second = catch(|| $invoke);
-            check_arm(cx, $arm, first, second, $twin, $target, &other, next_amount());
+            if check_arm(cx, $arm, first, second, $twin, $target, &other, next_amount()) {
+                let third = catch(|| $invoke);
+                check_again(cx, $arm, third, $target);
+            }
         }};
     }
     let mkopts = |name: &str| Opts::new(name.to_string(), help).const_labels(const_labels.clone());
